@@ -226,6 +226,9 @@ def run(ctx, rep) -> None:
     rep.rule("C01.4", "group step counter incremented exactly once by 1 before the group step; per-group counter (a fresh object per group) stored in optimizer state inside the group loop; every group gets its step")
     rep.rule("C01.5", "per-step hyperparameters come from the loop's param group (scheduler changes take effect next step) and reach the matching formal")
     rep.attempt("who_may_write", who_may_write, ctx, rep, "C01.1")
+    from .common import gradients_are_inputs
+
+    rep.attempt("gradients_are_inputs", gradients_are_inputs, ctx, rep, "C01.1")
     rep.attempt("_effect_order", _effect_order, ctx, rep)
     step = repo.method(DS, "step")
     rep.attempt("schedule_expr_check", schedule_expr_check, ctx, rep, "C01.3", step, "perform_amortized_computation", lambda s, a, f, env: s == a or (s > a and s % f == 0), "step == start or (step > start and step % freq == 0)")
@@ -241,6 +244,13 @@ def run(ctx, rep) -> None:
     rep.attempt("exact_diagonal_flag", exact_diagonal_flag, ctx, rep, "C01.7")
     rep.rule("C01.8", "inverse-root selection per tensor order: override 0 -> default rule (2k Shampoo / 2 eigenvalue-corrected), n -> n, sequence -> entry of that order, default rule beyond its length")
     rep.attempt("inverse_root_selection", inverse_root_selection, ctx, rep, "C01.8")
+    from .c04 import _change_guards
+    from .c05 import blocks_are_views
+
+    rep.rule("C01.9", "the masked lists the step works on are re-derived whenever the set of gradients changes (guard on the selector, never on a count)")
+    rep.attempt("_change_guards", _change_guards, ctx, rep, "C01.9")
+    rep.rule("C01.10", "the blocks the update is applied to are views of the parameters (no possibly-copying operation between a parameter and its blocks)")
+    rep.attempt("blocks_are_views", blocks_are_views, ctx, rep, "C01.10")
     rep.attempt("_wiring", _wiring, ctx, rep)
     from .common import hyperparameters_from_group
 
